@@ -138,7 +138,7 @@ func runC20(r *Run, p *Prog) {
 			if cv, ok := fdV.(*ssa.Convert); ok {
 				fdV = cv.X
 			}
-			namesT := `ext(call:os.LookupEnv(const:"LISTEN_FDNAMES"),0)`
+			namesT := env("LISTEN_FDNAMES") // (terms.go: the value half of LookupEnv is written as Getenv)
 			splitT := `call:strings.Split(` + namesT + `,const:":")`
 			type leaf struct {
 				v     ssa.Value
